@@ -665,4 +665,42 @@ REGISTRY = {
                 'seeded circuit',
         'explanation': 'bounded native pre/post contract per pass',
     },
+    'C18': {
+        'level': 'other',
+        'engine': 'pybound',
+        'technique': 'bounded native contract of the gate interface on '
+                     'every concrete class of bqskit.ir.gates (several '
+                     'constructor arguments, seven parameter vectors), '
+                     'algebraic identities of the composed gates, Qiskit\'s '
+                     'matrices for the standard names',
+        'level_text': 'for about 100 gate constructions x parameter vectors '
+                      '{0, pi/2, pi, mixed multiples of pi/2, two generic, '
+                      'one large}: get_unitary has the advertised dimension '
+                      'and radixes and is unitary; get_grad matches central '
+                      'differences of get_unitary and get_unitary_and_grad '
+                      'agrees with both; inverse gate x inverse parameters '
+                      'gives the identity; calc_params reproduces matrices '
+                      'the gate can represent; optimize is not beaten by '
+                      'random parameter vectors; equal constructions are '
+                      'equal and hash equally; Dagger / Power / Tagged / '
+                      'Frozen / Controlled (qubit and qutrit controls, '
+                      'several levels) / Embedded gates equal the algebraic '
+                      'composition of their parts; 32 standard names equal '
+                      'the matrices Qiskit assigns; bounded stand-in, '
+                      'nothing is proved',
+        'level_note': 'every clause is about complex floating-point matrices '
+                      'over all real parameters: no contract can be '
+                      'discharged deductively, the contract is only '
+                      'evaluated at the listed points (tolerances 1e-8 / '
+                      '2e-5 for finite differences); optimize is accepted '
+                      'when it maximises Re tr(env U) (documented) or '
+                      '|tr(env U)| (gates without a global-phase parameter); '
+                      'one known finding (FrozenParameterGate.optimize)',
+        'parts': [
+            {'kind': 'custom', 'module': 'pybound.c18_checks'},
+        ],
+        'rule': 'one evaluation = one gate construction (all parameter '
+                'vectors and clauses) or one identity',
+        'explanation': 'bounded native contract of the gate interface',
+    },
 }
